@@ -221,9 +221,17 @@ def _reader_body(v, the_type):
     esz_of = {typ: esz for (typ, dt, name, off, offN, esz) in rows}
     cnt = v.int("cnt")
     # the writer emits pointer payloads as count * element_size bytes (writer.spec); scalars have their own size
-    s = simp(cnt * esz_of[the_type]) if esz_of[the_type] else v.int("s")
+    dt_of = {typ: dn.get(dt) for (typ, dt, name, off, offN, esz) in rows}
+    scalar_size = {"REB_DOUBLE": 8, "REB_INT": 4, "REB_UINT": 4, "REB_UINT32": 4, "REB_INT64": 8, "REB_UINT64": 8, "REB_VEC3D": 24,
+                   "REB_PARTICLE": tu.sizeof(tu.ctype("struct reb_particle")), "REB_PARTICLE4": 4 * tu.sizeof(tu.ctype("struct reb_particle"))}
+    # header sizes are the ones the writer emits (writer.spec): dtype size for scalars, count*element_size for arrays
+    if esz_of[the_type]:
+        s = simp(cnt * esz_of[the_type])
+    else:
+        s = z3.IntVal(scalar_size[dt_of[the_type]])
     v.assume(cnt >= 0)
-    v.assume(S0 == s, s >= 0, fobj.size >= HDR + s + HDR)
+    eng.content_presets[("in", "reb_binary_field.size", tu.offsetof("reb_binary_field", "size"))] = s
+    v.assume(s >= 0, fobj.size >= HDR + s + HDR)
     # the second header (at 16+s) is END
     v.assume(eng.content("in", ("reb_binary_field", "type"), u32, HDR + s) == ids["end"])
     valid = [the_type]
@@ -304,3 +312,125 @@ def _make_reader_tasks():
 
 
 _make_reader_tasks()
+
+
+def loader_tree_task(v):
+    """The spatial tree is not persisted (classified `reconstructed` in C05_table): the loader must rebuild it for every
+    particle exactly when some module uses a tree.  `uses a tree` is taken from the enumerators (every gravity / collision
+    mode whose name contains TREE) and cross-checked against the condition under which reb_simulation_step maintains the
+    tree -- two cooperating sites that must agree."""
+    eng = v.eng
+    eng.guarded_traces = True
+    tu = eng.tu0
+    rows = layout.descriptor_table(cfront.REPO)
+    eng.global_overrides = {"reb_binary_field_descriptor_list": table_override(rows)}
+    ids = {name: typ for (typ, dt, name, off, offN, esz) in rows}
+    r, rp = sim_with_counters(v)
+    f = eng.new_file(v.st, "in")
+    fobj = v.st.mem.get(f.obj)
+    eng.content_presets = {("in", "reb_binary_field.type", 0): z3.IntVal(ids["end"])}
+    v.assume(fobj.size >= HDR)
+    w, wp = v.cell("int", "warnings", value=z3.IntVal(0))
+    eng.havoc_calls |= {"reb_simulation_warning", "reb_simulation_error", "reb_tree_delete"}
+    from engine.csym import NORMAL, as_bool
+    grav, coll = v.int("gravity"), v.int("collision")
+    r.gravity, r.collision = grav, coll
+    r.N_var_config = 0
+
+    def handler(e, st, n, cond, inc, body):
+        names = set()
+
+        def scan(x):
+            if isinstance(x, dict):
+                if x.get("kind") == "DeclRefExpr":
+                    names.add(x["referencedDecl"].get("name"))
+                for c in x.get("inner", ()):
+                    scan(c)
+        scan(body)
+        if "reb_tree_add_particle_to_tree" in names:
+            # loop header: l from 0 while l < N_allocated
+            lv = e.local(st, "l")
+            st.trace = st.trace + [("tree_rebuild_loop", lv, e.rvalue(st, cond) if cond else None)]
+        return NORMAL
+    for (o, info) in v.loops_of("reb_input_fields"):
+        if info["kind"] == "ForStmt":
+            v.loop("reb_input_fields", o, mode="custom", invariant=handler)
+    v.call("reb_input_fields", rp, f, wp)
+    tree_modes = {"gravity": [val for name, val in tu.enums.items() if name.startswith("REB_GRAVITY_") and "TREE" in name],
+                  "collision": [val for name, val in tu.enums.items() if name.startswith("REB_COLLISION_") and "TREE" in name]}
+    v.ground("tree_modes_found", len(tree_modes["gravity"]) >= 1 and len(tree_modes["collision"]) >= 2, str(tree_modes))
+    uses_tree = z3.Or(*([grav == x for x in tree_modes["gravity"]] + [coll == x for x in tree_modes["collision"]]))
+    guards = [t for t in v.st.trace if t[0] == "guard"]
+    rebuilt = z3.BoolVal(False)
+    loops = []
+    for g in guards:
+        yes = [t for t in g[2] if t[0] == "tree_rebuild_loop"]
+        no = [t for t in g[3] if t[0] == "tree_rebuild_loop"]
+        if yes:
+            rebuilt = g[1]
+            loops += yes
+        if no:
+            rebuilt = z3.Not(g[1])
+            loops += no
+    direct = [t for t in v.st.trace if t[0] == "tree_rebuild_loop"]
+    if direct:
+        rebuilt = z3.BoolVal(True)
+        loops += direct
+    v.prove("rebuilt_iff_a_module_uses_the_tree", rebuilt == uses_tree)
+    if loops:
+        lv, c = loops[0][1], loops[0][2]
+        v.prove("rebuild_covers_all_particles", z3.And(lv == 0, as_bool(c) == (lv < as_int(r.N_allocated))))
+
+
+def step_tree_task(v):
+    """cross-check of the same predicate at the consumer: reb_simulation_step updates the tree when a tree mode is selected"""
+    eng = v.eng
+    eng.guarded_traces = True
+    tu = eng.tu0
+    r, rp = v.struct_obj("struct reb_simulation", "r")
+    grav, coll = v.int("gravity"), v.int("collision")
+    r.gravity, r.collision = grav, coll
+    r.tree_needs_update = 0
+    eng.check_defined = False          # wall-clock bookkeeping divisions are not the subject here
+    from engine.mem import NULL as NULLP
+    for fp in ("pre_timestep_modifications", "post_timestep_modifications", "heartbeat", "additional_forces"):
+        setattr(r, fp, NULLP)
+    r.N_var_config = 0
+
+    def note(name):
+        def f(e, st, args, n):
+            st.trace = st.trace + [(name,)]
+            return None
+        return f
+    _tu, fn = eng.find_function("reb_simulation_step")
+    called = set()
+
+    def scan(x):
+        if isinstance(x, dict):
+            if x.get("kind") == "DeclRefExpr" and x["referencedDecl"].get("kind") == "FunctionDecl":
+                called.add(x["referencedDecl"]["name"])
+            for c in x.get("inner", ()):
+                scan(c)
+    scan(fn)
+    for nm in called:
+        eng.trace_prims[nm] = note(nm)
+    v.call("reb_simulation_step", rp)
+    tree_modes = [("g", val) for name, val in tu.enums.items() if name.startswith("REB_GRAVITY_") and "TREE" in name] + \
+                 [("c", val) for name, val in tu.enums.items() if name.startswith("REB_COLLISION_") and "TREE" in name]
+    uses_tree = z3.Or(*[(grav if k == "g" else coll) == val for k, val in tree_modes])
+    upd = z3.BoolVal(False)
+
+    def find(tr, cond):
+        nonlocal upd
+        for t in tr:
+            if t[0] == "guard":
+                find(t[2], z3.And(cond, t[1]))
+                find(t[3], z3.And(cond, z3.Not(t[1])))
+            elif t[0] == "reb_simulation_update_tree":
+                upd = z3.Or(upd, cond)
+    find(v.st.trace, z3.BoolVal(True))
+    v.prove("tree_updated_iff_a_module_uses_the_tree", z3.simplify(upd) == uses_tree)
+
+
+P.task("loader.tree_rebuilt_iff_tree_in_use", fn="reb_input_fields", files=["src/input.c", "src/output.c", "src/binarydiff.c"])(loader_tree_task)
+P.task("step.tree_maintained_iff_tree_in_use", fn="reb_simulation_step", files=["src/rebound.c", "src/output.c"])(step_tree_task)
